@@ -74,7 +74,7 @@ def validate(run, logs, metas, symptom_of=None):
                 continue
             seen.add((clause, tuple(ev['cell']['t'])))
             hist = [uncps(e['cell']['t']) for e in log[1:pos]]
-            run.violation({'header': uncps(log[0]['ht']), 'history': hist, 'event_index': pos, 'clause': clause, 'event': ev,
+            run.violation({'header': uncps(log[0]['ht']), 'history': hist, 'cells': [e['cell'] for e in log[1:pos + 1]], 'event_index': pos, 'clause': clause, 'event': ev,
                            'input': f"{uncps(log[0]['ht'])}: {hist}", 'meta': meta},
                           f"clause {clause} fails after the history {hist[-6:]} on one {uncps(log[0]['ht'])} importer: {describe(ev)}",
                           classes=cl, symptom=sym)
